@@ -242,6 +242,34 @@ def k5_overflowing_duration(req, out):
     h = int(m.group(2) or b"0"); mi = int(m.group(3) or b"0")
     return h > I64 or mi > I64 or h * 60 > I64 or h * 60 + mi > I64
 
+def gen_cmp(tier, rng):
+    """pairs of time literals: equality and order of the values they denote"""
+    ts = list(all_times())
+    for a in ("24:00", "<24:00", "0:00>", "0:00", "12:00am", "12:00pm", "12:00", "<12:00am", "12:00am>", "23:59>", "<0:00", "<8:00", "8:00>", "8:00"):
+        for b in ("24:00", "<24:00", "0:00>", "0:00", "12:00am", "12:00pm", "12:00", "<12:00am", "12:00am>", "23:59>", "<0:00", "<8:00", "8:00>", "8:00"):
+            yield "cmp %s %s" % (hx(a), hx(b))
+    n = 60000 if tier == "quick" else 4000000
+    for _ in range(n):
+        a = rng.choice(ts)
+        k = rng.random()
+        if k < 0.35:                      # the same clock reading under another shift / notation
+            core = a.strip("<>")
+            b = rng.choice(["<", "", ""]) + core
+            if not b.startswith("<") and rng.random() < 0.5: b += ">"
+        elif k < 0.5:
+            b = a
+        else:
+            b = rng.choice(ts)
+        if rng.random() < 0.3: a = to12(a)
+        if rng.random() < 0.3: b = to12(b)
+        yield "cmp %s %s" % (hx(a), hx(b))
+
+def oracle_cmp(req, out):
+    _, a, b = req.split(" ")
+    oa, ob = off_of(a), off_of(b)
+    want = "ok %d %d" % (1 if oa == ob else 0, 1 if oa >= ob else 0)
+    return None if out == want else "%s vs %s: klog says %r, the specification's values give %r" % (unhx(a), unhx(b), out, want)
+
 def suites():
     return [
         Suite("times", gen_times, oracle=oracle_time, exhaustive=lambda t: True,
@@ -252,6 +280,9 @@ def suites():
               rule="Y-M-D strings, month 00..13, day 00..32, 4 separator combinations per year; non-trivial = accepted"),
         Suite("plus", gen_plus, oracle=oracle_plus, exhaustive=lambda t: t != "quick",
               rule="times x durations in [-2881,2881] (+ int64 boundary durations); non-trivial = result is a time"),
+        Suite("compare", gen_cmp, oracle=oracle_cmp, exhaustive=lambda t: False,
+              rule="pairs of time literals (same clock reading under different shifts and notations, the specification's equalities, random pairs): IsEqualTo / IsAfterOrEqual; non-trivial = equal pair",
+              nontrivial=lambda r, o: o.startswith("ok 1")),
         Suite("ranges", gen_ranges, oracle=oracle_range, exhaustive=lambda t: t != "quick",
               rule="pairs of shifted times, both notations; non-trivial = valid range"),
     ]
